@@ -80,6 +80,18 @@ func VH_c16_heartbeat() {
 	}
 	refresh("each-tick-refreshes-and-notifies-exactly-once", 1)
 	refresh("each-tick-refreshes-and-notifies-exactly-once", 1)
+	// a ticker that is re-armed after a refresh fires one period after the *end* of that refresh: with a
+	// refresh (notifying the subscribers) that takes any time up to one second the distance between two
+	// refreshes must still not exceed the announced timeout
+	if n := verifrt.TickerResetCount(); n > 0 {
+		took := verifrt.I64("refresh-took-ns")
+		verifrt.Assume(verifrt.All(took > 0, took <= int64(time.Second)))
+		within := true
+		for i := 0; i < n; i++ {
+			within = within && verifrt.Concrete(verifrt.TickerResetPeriod(i)+took <= int64(timeout))
+		}
+		verifrt.Assert("refresh-period-does-not-exceed-the-announced-timeout", within)
+	}
 	switch sc {
 	case "restart":
 		_ = hm.StartHeartbeat()
